@@ -60,8 +60,9 @@ Section WithHash.
     if vfirst st then Ok (mkV false (vacc st) (Some (tO t)) rm2 (vlogs st)) else
     let logs := match tL t with None => vlogs st | Some n => vlogs st ++ [n] end in
     if negb (state_eqb (tD t) computed) then Err CBadDiscard else
+    bind (verify_ssts H disk (tadds t)) (fun _ =>
     bind (if gc_needed t then verify_gc H coll disk (trms t) (tadds t) (tD t) else Ok tt) (fun _ =>
-    bind (sub_r (vacc st) computed) (fun acc' => Ok (mkV false acc' (Some (tO t)) rm2 logs)))).
+    bind (sub_r (vacc st) computed) (fun acc' => Ok (mkV false acc' (Some (tO t)) rm2 logs))))).
 
   Lemma vstep_render disk st t : txn_canon t -> vstep H coll disk st (render t) = pstep disk st t.
   Proof.
@@ -83,6 +84,7 @@ Section WithHash.
     rewrite El. cbn [bind].
     destruct (negb (state_eqb (tD t) (sum_from cd1 (trms t)))); [reflexivity|].
     rewrite !parse_all_render by assumption.
+    destruct (verify_ssts H disk (tadds t)) as [[]| |]; cbn [bind]; [|reflexivity..].
     assert (Eg : (negb (state_eqb (tD t) zero) && negb (match map hexdigest (trms t) with [] => true | _ :: _ => false end)) = gc_needed t)
       by (unfold gc_needed; destruct (trms t); reflexivity).
     rewrite Eg. reflexivity.
@@ -126,8 +128,11 @@ Section WithHash.
       now rewrite Hs.
   Qed.
 
-  Definition gc_pass (disk : list bfile) (t : txn) : Prop :=
-    gc_needed t = true -> verify_gc H coll disk (trms t) (tadds t) (tD t) = Ok tt.
+  (* what the verifier reads from files for an edit: every added sst holds the entries its name
+     stands for (verify_sst), and the GC replay passes when there is one *)
+  Definition files_pass (disk : list bfile) (t : txn) : Prop :=
+    verify_ssts H disk (tadds t) = Ok tt /\
+    (gc_needed t = true -> verify_gc H coll disk (trms t) (tadds t) (tD t) = Ok tt).
 
   (* ---------------------------------------------------------------- completeness *)
   Lemma pstep_first_ok disk st t : vfirst st = true -> txn_canon t -> tO t = vacc st ->
@@ -137,14 +142,14 @@ Section WithHash.
     destruct (sub_all_ok (tadds t) zero zero_canonical Ha) as (cd1 & E1 & _ & _). rewrite E1. cbn [bind]. eauto.
   Qed.
 
-  Lemma pstep_next_ok disk st t : vfirst st = false -> txn_canon t -> txn_ok (vacc st) t -> gc_pass disk t ->
+  Lemma pstep_next_ok disk st t : vfirst st = false -> txn_canon t -> txn_ok (vacc st) t -> files_pass disk t ->
     exists rm logs, pstep disk st t = Ok (mkV false (tO t) (Some (tO t)) rm logs).
   Proof.
-    intros Hf Hc (EI & Ebal & Hd) Hgc. pose proof Hc as (HI & HO & HD & Ha & Hr). unfold pstep. rewrite Hf. cbn [andb negb].
+    intros Hf Hc (EI & Ebal & Hd) [Hssts Hgc]. pose proof Hc as (HI & HO & HD & Ha & Hr). unfold pstep. rewrite Hf. cbn [andb negb].
     rewrite <- EI, state_eqb_refl. cbn [negb]. rewrite <- Ebal, state_eqb_refl. cbn [negb].
     destruct (computed_discard_spec (tadds t) (trms t) Ha Hr) as (cd1 & E1 & Hcc & Hs). rewrite E1. cbn [bind].
     assert (Ed : tD t = sum_from cd1 (trms t)) by (now apply (discard_matches t cd1)).
-    rewrite <- Ed, state_eqb_refl. cbn [negb].
+    rewrite <- Ed, state_eqb_refl. cbn [negb]. rewrite Hssts. cbn [bind].
     assert (Eg : (if gc_needed t then verify_gc H coll disk (trms t) (tadds t) (tD t) else Ok tt) = Ok tt).
     { destruct (gc_needed t) eqn:G; [now apply Hgc|reflexivity]. }
     rewrite Eg. cbn [bind]. rewrite (sub_r_of_add (tI t) (tD t) (tO t)) by (try assumption; now symmetry).
@@ -152,7 +157,7 @@ Section WithHash.
   Qed.
 
   Lemma ploop_chain_ok disk ts : forall st, vfirst st = false -> Forall txn_canon ts -> chain (vacc st) ts ->
-    Forall (gc_pass disk) ts ->
+    Forall (files_pass disk) ts ->
     exists rm logs, ploop disk st ts = Ok (mkV false (last_O (vacc st) ts) (match ts with [] => vlast st | _ => Some (last_O (vacc st) ts) end) rm logs)
                     \/ (ts = [] /\ ploop disk st ts = Ok st).
   Proof.
@@ -167,7 +172,7 @@ Section WithHash.
       + exists rm, logs. left. cbn [ploop]. reflexivity.
   Qed.
 
-  Theorem verify_one_complete disk fr acc : Forall txn_canon fr -> frag_ok acc fr -> Forall (gc_pass disk) fr ->
+  Theorem verify_one_complete disk fr acc : Forall txn_canon fr -> frag_ok acc fr -> Forall (files_pass disk) fr ->
     exists rm logs, verify_one H coll disk (map render fr) acc = Ok (frag_end fr, rm, logs).
   Proof.
     intros Hc Hok Hgc. destruct fr as [|t0 r]; [destruct Hok|]. destruct Hok as [E0 Hch].
@@ -181,7 +186,7 @@ Section WithHash.
   Qed.
 
   Theorem verify_frags_complete disk frs : forall acc, Forall (Forall txn_canon) frs -> frags_ok acc frs ->
-    Forall (Forall (gc_pass disk)) frs ->
+    Forall (Forall (files_pass disk)) frs ->
     verify_frags H coll disk (map (map render) frs) acc = Ok (log_end acc frs).
   Proof.
     induction frs as [|fr frs IH]; intros acc Hc Hok Hgc; cbn [map verify_frags log_end fold_left]; [reflexivity|].
@@ -202,26 +207,27 @@ Section WithHash.
 
   Lemma pstep_next_sound disk st t st' : vfirst st = false -> canonical (vacc st) -> txn_canon t ->
     pstep disk st t = Ok st' ->
-    txn_ok (vacc st) t /\ gc_pass disk t /\ vfirst st' = false /\ vacc st' = tO t /\ vlast st' = Some (tO t).
+    txn_ok (vacc st) t /\ files_pass disk t /\ vfirst st' = false /\ vacc st' = tO t /\ vlast st' = Some (tO t).
   Proof.
     intros Hf Hacc Hc. pose proof Hc as (HI & HO & HD & Ha & Hr). unfold pstep. rewrite Hf. cbn [andb negb].
     destruct (state_eqb (tI t) (vacc st)) eqn:E1; cbn [negb]; [|discriminate]. apply state_eqb_eq in E1.
     destruct (state_eqb (tI t) (add_state (tO t) (tD t))) eqn:E2; cbn [negb]; [|discriminate]. apply state_eqb_eq in E2.
     destruct (sub_all zero (tadds t)) as [cd1| |] eqn:E3; cbn [bind]; [|discriminate..].
     destruct (state_eqb (tD t) (sum_from cd1 (trms t))) eqn:E4; cbn [negb]; [|discriminate]. apply state_eqb_eq in E4.
+    destruct (verify_ssts H disk (tadds t)) as [[]| |] eqn:E7; cbn [bind]; [|discriminate..].
     destruct (if gc_needed t then verify_gc H coll disk (trms t) (tadds t) (tD t) else Ok tt) as [[]| |] eqn:E5; cbn [bind]; [|discriminate..].
     destruct (sub_r (vacc st) (sum_from cd1 (trms t))) as [acc'| |] eqn:E6; cbn [bind]; [|discriminate..].
     intros E'. inversion E'; subst st'. cbn [vfirst vacc vlast].
     assert (Hd : disc_ok t) by (now apply (discard_matches t cd1)).
     split; [unfold txn_ok; tauto|]. split; [|split; [reflexivity|split; [|reflexivity]]].
-    - intros G. now rewrite G in E5.
+    - split; [exact E7|]. intros G. now rewrite G in E5.
     - rewrite <- E4 in E6. rewrite <- E1 in E6. rewrite E2 in E6.
       unfold sub_r in E6. rewrite sub_add in E6 by assumption. now inversion E6.
   Qed.
 
   Lemma ploop_sound disk ts : forall st st', vfirst st = false -> canonical (vacc st) -> Forall txn_canon ts ->
     ploop disk st ts = Ok st' ->
-    chain (vacc st) ts /\ Forall (gc_pass disk) ts /\ vacc st' = last_O (vacc st) ts /\
+    chain (vacc st) ts /\ Forall (files_pass disk) ts /\ vacc st' = last_O (vacc st) ts /\
     vlast st' = match ts with [] => vlast st | _ => Some (last_O (vacc st) ts) end.
   Proof.
     induction ts as [|t ts IH]; intros st st' Hf Hacc Hc; cbn [ploop].
@@ -236,7 +242,7 @@ Section WithHash.
 
   Theorem verify_one_sound disk fr acc r : canonical acc -> Forall txn_canon fr ->
     verify_one H coll disk (map render fr) acc = Ok r ->
-    frag_ok acc fr /\ Forall (gc_pass disk) (tl fr) /\ fst (fst r) = frag_end fr.
+    frag_ok acc fr /\ Forall (files_pass disk) (tl fr) /\ fst (fst r) = frag_end fr.
   Proof.
     intros Hacc Hc. unfold verify_one. rewrite vloop_render by assumption.
     destruct fr as [|t0 ts]; cbn [ploop]; [cbn; discriminate|].
@@ -273,6 +279,22 @@ Section WithHash.
     destruct (vgc_loop H _ _ _ zero) eqn:E3; cbn [bind]; [destruct (state_eqb _ d); discriminate|discriminate|destruct (V _ _ _ _ E3)].
   Qed.
 
+  Lemma verify_ssts_no_panic disk l : verify_ssts H disk l <> Panic.
+  Proof.
+    induction l as [|x l IH]; cbn [verify_ssts]; [discriminate|].
+    destruct (lookup disk x); [|discriminate]. destruct (state_eqb _ x); [exact IH|discriminate].
+  Qed.
+
+  (* every sst an accepted edit adds is on the disk and holds entries whose setsum is its name *)
+  Lemma verify_ssts_ok_in disk l x : verify_ssts H disk l = Ok tt -> In x l ->
+    exists es, lookup disk x = Some es /\ builder_setsum H es = x.
+  Proof.
+    induction l as [|y l IH]; cbn [verify_ssts]; intros E Hin; [destruct Hin|].
+    destruct (lookup disk y) as [es|] eqn:El; [|discriminate].
+    destruct (state_eqb (builder_setsum H es) y) eqn:Es; [|discriminate]. apply state_eqb_eq in Es.
+    destruct Hin as [<-|Hin]; [eauto|now apply IH].
+  Qed.
+
   Lemma sub_all_no_panic l : forall acc, canonical acc -> Forall canonical l -> sub_all acc l <> Panic.
   Proof. intros acc Ha Hl. destruct (sub_all_ok l acc Ha Hl) as (s & E & _). rewrite E. discriminate. Qed.
 
@@ -285,6 +307,7 @@ Section WithHash.
     destruct (sub_all_ok (tadds t) zero zero_canonical Ha) as (cd1 & E1 & Hc1 & _). rewrite E1. cbn [bind].
     destruct (vfirst st); [discriminate|].
     destruct (negb (state_eqb (tD t) (sum_from cd1 (trms t)))); [discriminate|].
+    destruct (verify_ssts H disk (tadds t)) as [[]| |] eqn:E0; cbn [bind]; [|discriminate|now apply verify_ssts_no_panic in E0].
     destruct (if gc_needed t then verify_gc H coll disk (trms t) (tadds t) (tD t) else Ok tt) as [[]| |] eqn:E2; cbn [bind]; [|discriminate|].
     - destruct (sub_r_ok (vacc st) (sum_from cd1 (trms t)) Hacc) as (a & Ea & _); [now apply sum_from_canonical|].
       rewrite Ea. discriminate.
@@ -402,6 +425,36 @@ Section WithHash.
     exact (tampered_first_O_not_ok acc t0 v post Hok Hne Hok').
   Qed.
 
+  (* an edit that adds an sst whose file holds other entries than its name stands for is rejected,
+     balanced or not *)
+  Theorem verify_one_rejects_bad_sst disk acc t0 tpre t tpost x es' :
+    canonical acc -> Forall txn_canon (t0 :: tpre ++ t :: tpost) ->
+    In x (tadds t) -> lookup disk x = Some es' -> builder_setsum H es' <> x ->
+    rejects (verify_one H coll disk (map render (t0 :: tpre ++ t :: tpost)) acc).
+  Proof.
+    intros Hacc Hc Hin Hl Hne. apply not_ok_rejects; [|now apply verify_one_no_panic].
+    intros r E. destruct (verify_one_sound disk _ acc r Hacc Hc E) as (_ & Hp & _). cbn [tl] in Hp.
+    apply Forall_app in Hp. destruct Hp as [_ Hp]. inversion Hp as [|? ? [Hs _] _]; subst.
+    destruct (verify_ssts_ok_in disk (tadds t) x Hs Hin) as (es & El & Es). rewrite Hl in El. injection El as <-. contradiction.
+  Qed.
+
+  Lemma retain_states_nil l : retain_states [] l = [].
+  Proof. unfold retain_states. induction l as [|x l IH]; cbn [fold_left filter]; [reflexivity|exact IH]. Qed.
+
+  (* the first edit of a fragment (zero edit or roll-up: no removals): only its O is looked at *)
+  Theorem first_edit_only_O disk t0 post acc vI vD adds' : txn_canon t0 -> trms t0 = [] ->
+    canonical vI -> canonical vD -> Forall canonical adds' ->
+    verify_one H coll disk (map render (mkT vI (tO t0) vD adds' [] (tL t0) :: post)) acc =
+    verify_one H coll disk (map render (t0 :: post)) acc.
+  Proof.
+    intros (HI & HO & HD & Ha & Hr) Er HvI HvD Hadds. unfold verify_one. cbn [map vloop].
+    rewrite !vstep_render by (unfold txn_canon; cbn; repeat split; try assumption; constructor).
+    unfold pstep. cbn [vfirst vacc vrm vlogs tI tO tD tadds trms tL andb negb]. rewrite Er.
+    destruct (state_eqb (tO t0) acc); cbn [negb]; [|reflexivity].
+    destruct (sub_all_ok adds' zero zero_canonical Hadds) as (c1 & E1 & _). destruct (sub_all_ok (tadds t0) zero zero_canonical Ha) as (c2 & E2 & _).
+    rewrite E1, E2. cbn [bind app]. now rewrite !retain_states_nil.
+  Qed.
+
   (* over a whole log: the fragments before the tampered one verify as before, the tampered one is
      rejected, so the pass is rejected *)
   Lemma frags_end_canonical frs : forall acc, canonical acc -> Forall (Forall txn_canon) frs -> frags_ok acc frs ->
@@ -416,7 +469,7 @@ Section WithHash.
   Qed.
 
   Theorem verify_frags_rejects disk pre fr' post : forall acc, canonical acc ->
-    Forall (Forall txn_canon) pre -> frags_ok acc pre -> Forall (Forall (gc_pass disk)) pre ->
+    Forall (Forall txn_canon) pre -> frags_ok acc pre -> Forall (Forall (files_pass disk)) pre ->
     rejects (verify_one H coll disk (map render fr') (log_end acc pre)) ->
     rejects (verify_frags H coll disk (map (map render) (pre ++ fr' :: post)) acc).
   Proof.
